@@ -215,7 +215,7 @@ def coq_term(c):
     if rt == "compensated":
         return "(runComp %s %s %d %d %s %s)" % (F(c["G"]), F(c["soft"]), c["ign"], na, cb(c["tp"]), body)
     if rt == "jacobi":
-        return "(runJac %s %s %s)" % (F(c["G"]), body, vlib.flist([1.0] * (3 * c["N"])))
+        return "(runJac %s %d %s %s %s)" % (F(c["G"]), na, cb(c["tp"]), body, vlib.flist([1.0] * (3 * c["N"])))
     if rt == "merc0":
         return "(runMerc0 %s %s %s %d %s %s)" % (F(c["G"]), F(c["soft"]), vlib.flist(c["dcrit"]), na, cb(c["tp"]), body)
     if rt == "merc1":
@@ -277,8 +277,9 @@ def enumerate_cases(rng, tier_thorough):
                     for _ in range(reps):
                         cases.append(add_encounter(rng, base_case(rng, "merc1", n, na, tp, 0)))
                         cases.append(add_encounter(rng, base_case(rng, "trace1", n, na, tp, 0), ks=True))
-        for _ in range(3):
-            cases.append(base_case(rng, "jacobi", n, -1, 0, 0))
+        for na in nacts(n, n in small):
+            for tp in (0, 1):
+                cases.append(base_case(rng, "jacobi", n, na, tp, 0))
         c = base_case(rng, "none", n, -1, 0, 0); c["acc0"] = [1.0] * (3 * n)
         cases.append(c)
     for c in cases:
@@ -572,7 +573,7 @@ def searcher(ctx, rebound, rng):
         elif kind in ("basic", "compensated"):
             c = base_case(rng, kind, n, na, tp, ign)
         elif kind == "jacobi":
-            c = base_case(rng, "jacobi", n, -1, 0, 0); c["soft"] = 0.0
+            c = base_case(rng, "jacobi", n, na, tp, 0); c["soft"] = 0.0
         elif kind in ("merc", "trace"):
             c = base_case(rng, "merc0" if kind == "merc" else "trace0", max(n, 1), na if na <= max(n, 1) else -1, tp, 0)
             c["xs"][0] = c["ys"][0] = c["zs"][0] = 0.0      # heliocentric coordinates: the star sits at the origin
@@ -744,7 +745,7 @@ def jacobi_reference(c):
     plus for every j>=2 the Jacobi term  G*(-m_j)*Q_j/|Q_j|^3 on i<j and G*M_j*Q_j/|Q_j|^3 on j,
     Q_j = x_j - R_j/M_j (centre of mass of the particles before j)."""
     n = c["N"]
-    full = dict(c); full["routine"] = "basic"; full["ign"] = 1; full["nact_raw"] = -1; full["soft"] = 0.0
+    full = dict(c); full["routine"] = "basic"; full["ign"] = 1; full["soft"] = 0.0      # direct part: N_active/testparticle_type rules of BASIC
     acc, mag = spec_acc(full)
     if acc is None:
         return None
